@@ -24,22 +24,22 @@ Notation GZ := (GZ fb).
 (** * The one-hot image of a sequence *)
 Definition img (q : tseq) : asg := fun v =>
   existsb (fun t => existsb (fun f => existsb (fun l =>
-     (zn (gvar fb t f l) =? v)%Z && is_level l (get_cell q f t))
+     isact fb f && (zn (gvar fb t f l) =? v)%Z && is_level l (get_cell q f t))
      (seq 0 (nlevels fb f))) (seq 0 (nf fb))) (seq 0 (T fb)).
 
 Lemma img_bit q t f l :
-  t < T fb -> f < nf fb -> l < nlevels fb f -> bit fb (img q) t f l = is_level l (get_cell q f t).
+  t < T fb -> isact fb f = true -> l < nlevels fb f -> bit fb (img q) t f l = is_level l (get_cell q f t).
 Proof.
   intros Ht Hf Hl. unfold bit, img. destruct (is_level l (get_cell q f t)) eqn:E.
   - apply existsb_exists. exists t. split; [apply in_seq; lia|].
-    apply existsb_exists. exists f. split; [apply in_seq; lia|].
-    apply existsb_exists. exists l. split; [apply in_seq; lia|]. now rewrite Z.eqb_refl, E.
+    apply existsb_exists. exists f. split; [apply in_seq; pose proof (f1_act_lt fb HF1 f Hf); lia|].
+    apply existsb_exists. exists l. split; [apply in_seq; lia|]. now rewrite Hf, Z.eqb_refl, E.
   - apply not_true_is_false. intros H.
     apply existsb_exists in H. destruct H as (t' & _ & H).
     apply existsb_exists in H. destruct H as (f' & Hf' & H). apply in_seq in Hf'.
     apply existsb_exists in H. destruct H as (l' & Hl' & H). apply in_seq in Hl'.
-    apply andb_true_iff in H. destruct H as [H1 H2]. apply Z.eqb_eq in H1. unfold zn in H1. apply Nat2Z.inj in H1.
-    destruct (gvar_inj fb HF1 t' f' l' t f l ltac:(lia) ltac:(lia) Hf Hl H1) as (-> & -> & ->). congruence.
+    rewrite !andb_true_iff in H. destruct H as [[H0 H1] H2]. apply Z.eqb_eq in H1. unfold zn in H1. apply Nat2Z.inj in H1.
+    destruct (gvar_inj fb HF1 t' f' l' t f l H0 ltac:(lia) Hf Hl H1) as (-> & -> & ->). congruence.
 Qed.
 
 (** the shape of a valid sequence: complete, every cell a level of its factor *)
@@ -69,16 +69,61 @@ Proof.
     + rewrite (applies_f1 fb HF1 f fd t Efd) in Hc. discriminate.
 Qed.
 
+Lemma valid_is_shape q : valid_b (code_sem fb) q = true -> shape fb q.
+Proof. intros Hv. destruct (valid_shape q Hv) as (A & B & C). repeat split; assumption. Qed.
+
+Lemma valid_factor_ok q f fd :
+  valid_b (code_sem fb) q = true -> nth_error (fl_design fb) f = Some fd ->
+  factor_ok (code_sem fb) q f (code_factor fb f fd) = true.
+Proof.
+  intros Hv Efd. unfold valid_b in Hv. rewrite !andb_true_iff in Hv. destruct Hv as [[[_ Hfac] _] _].
+  cbn [code_sem s_factors] in Hfac.
+  rewrite (forallb_index_map_ds (fun f fd => code_factor fb f fd) (fun f d => factor_ok (code_sem fb) q f d) (fl_design fb)) in Hfac.
+  now apply Hfac.
+Qed.
+
+(** the active cells read back from the image *)
+Lemma img_cell_act q t d :
+  shape fb q -> t < T fb -> isact fb d = true -> cell_act fb (img q) t d = get_cell q d t.
+Proof.
+  intros (_ & _ & C) Ht Hd. destruct (C t d Ht (f1_act_lt fb HF1 d Hd)) as (x & Hx & Ex). rewrite Ex.
+  unfold cell_act. apply find_unique; [exact Hx|]. intros j Hj.
+  rewrite (img_bit q t d j Ht Hd Hj), Ex, is_level_some. apply Nat.eqb_sym.
+Qed.
+
+(** the implied cells of a valid sequence are those computed from the image *)
+Lemma img_cell_impl q t f :
+  valid_b (code_sem fb) q = true -> t < T fb -> f < nf fb -> isact fb f = false ->
+  get_cell q f t = cell_impl fb (img q) t f.
+Proof.
+  intros Hv Ht Hf Hn. pose proof (valid_is_shape q Hv) as Hs.
+  destruct (implied_facts fb HF1 HT f Hf Hn) as (fd & w & Efd & Ew & Hd & _).
+  pose proof Hs as (_ & _ & C). destruct (C t f Ht Hf) as (l0 & Hl0 & El0).
+  pose proof (proj1 (factor_ok_shape fb HF1 HT q f fd Hs Efd) (valid_factor_ok q f fd Hv Efd) w Ew t l0 Ht El0) as Hacc.
+  assert (Ea : impl_args fb (img q) t w = map (lev q t) (win_deps w)).
+  { unfold impl_args. apply map_ext_in. intros d Hdd.
+    pose proof (proj1 (Forall_forall _ _) Hd d Hdd) as Hda. cbv beta in Hda.
+    rewrite (img_cell_act q t d Hs Ht Hda). reflexivity. }
+  unfold cell_impl, factor_at. rewrite Efd, Ew, Ea, El0.
+  destruct (find (fun l => level_accepts fd l (map (lev q t) (win_deps w))) (seq 0 (nlevels fb f))) as [l1|] eqn:Efind.
+  - destruct (find_in_range fb HF1 HT _ _ _ Efind) as [_ Hacc1].
+    rewrite <- (accepts_level_accepts_shape fb HF1 q f fd w t l1 Hs Efd Ew Ht) in Hacc1.
+    now rewrite (accepts_unique_shape fb HF1 HT q f fd w t l0 l1 Hs Efd Ew Ht Hacc Hacc1).
+  - exfalso. rewrite (accepts_level_accepts_shape fb HF1 q f fd w t l0 Hs Efd Ew Ht) in Hacc.
+    pose proof (find_none _ _ Efind l0 ltac:(apply in_seq; lia)) as Hno. cbv beta in Hno. congruence.
+Qed.
+
 Lemma valid_onehot_img q : valid_b (code_sem fb) q = true -> onehot fb (img q) q.
 Proof.
-  intros Hv. destruct (valid_shape q Hv) as (A & B & C). split; [exact A|]. split; [exact B|]. split; [exact C|].
-  intros t f l Ht Hf Hl. now apply img_bit.
+  intros Hv. destruct (valid_shape q Hv) as (A & B & C). split; [exact A|]. split; [exact B|]. split; [exact C|]. split.
+  - intros t f l Ht Hf Hl. now apply img_bit.
+  - intros t f Ht Hf Hn. now apply img_cell_impl.
 Qed.
 
 (** two one-hot images of the same sequence agree on the grid *)
 Lemma onehot_agree s1 s2 q : onehot fb s1 q -> onehot fb s2 q -> agree_upto GZ s1 s2.
 Proof.
-  intros (_ & _ & _ & H1) (_ & _ & _ & H2) v Hv.
+  intros (_ & _ & _ & H1 & _) (_ & _ & _ & H2 & _) v Hv.
   destruct (gvar_surj fb HF1 (Z.to_nat v)) as (t & f & l & Ht & Hf & Hl & E).
   { unfold F1Kinds.GZ, GN, zn in Hv. lia. }
   replace v with (zn (gvar fb t f l)) by (unfold zn; lia).
@@ -203,4 +248,28 @@ Example ex_wide_facts :
 Proof.
   split; [vm_compute; reflexivity|]. split; [vm_compute; lia|]. split; [vm_compute; reflexivity|].
   split; [vm_compute; reflexivity|]. split; [vm_compute; eexists; split; reflexivity|vm_compute; reflexivity].
+Qed.
+
+(** implied derived factor: the congruency factor is neither crossed nor
+    constrained, so it is not in act_design, gets no variables and no
+    Derivation constraints; its row is computed from the decoded colour and
+    text rows ([F1Sem.cell_impl]) *)
+Definition ex_implied : flat :=
+  {| fl_design := [xsimple; xsimple; xcon]; fl_act := [0; 1];
+     fl_crossings := [[0; 1]]; fl_sustains := [1]; fl_weights := [1]; fl_sizes := [4];
+     fl_preambles := [0]; fl_alignment := EqualPreamble; fl_alignment_preamble := 0;
+     fl_min_trials := 0; fl_trials := 4; fl_rcc := true; fl_exclude := [];
+     fl_excluded_derived := [];
+     fl_constraints := [FCross; FConsistency; FAtMost 1 1 0 None];
+     fl_errors_fail := false |}.
+
+Example ex_implied_facts :
+  in_f1 ex_implied = true /\ 0 < T ex_implied /\ isact ex_implied 2 = false /\
+  (exists b, compile ex_implied = COk b /\ b_fresh b = 66%Z) /\
+  length (all_valid (code_sem ex_implied)) = 12 /\
+  hd [] (all_valid (code_sem ex_implied)) =
+    [[Some 1; Some 1; Some 0; Some 0]; [Some 1; Some 0; Some 1; Some 0]; [Some 0; Some 1; Some 1; Some 0]].
+Proof.
+  split; [vm_compute; reflexivity|]. split; [vm_compute; lia|]. split; [vm_compute; reflexivity|].
+  split; [vm_compute; eexists; split; reflexivity|]. split; vm_compute; reflexivity.
 Qed.
